@@ -74,6 +74,7 @@ class CachingLoaderMixin(ABC, _CachingLoaderProtocol):
         cache_key: str,
         globals: Mapping[str, object] | None,  # noqa: A002
         load_func: Callable[[], Template],
+        context: RenderContext | None = None,
     ) -> Template:
         try:
             cached_template = self.cache[cache_key]
@@ -87,9 +88,16 @@ class CachingLoaderMixin(ABC, _CachingLoaderProtocol):
             self.cache[cache_key] = template
             return template
 
-        # Always rebind, as the non-caching loader would. Keeping the previous
-        # caller's globals when this caller has none leaks data between callers.
-        cached_template.global_data = env.make_globals(globals)
+        # Rebind, as the non-caching loader would. Keeping the previous caller's
+        # globals when this caller has none leaks data between callers.
+        #
+        # A template loaded from inside a render or a static analysis (`include`,
+        # `render`, `extends` pass the active render context) is rendered with
+        # that context and its own globals are never read. Leave the cached
+        # object alone in that case: rebinding would change the result of a
+        # later `render()` of a template someone else got from `get_template()`.
+        if context is None:
+            cached_template.global_data = env.make_globals(globals)
         return cached_template
 
     async def _check_cache_async(
@@ -98,6 +106,7 @@ class CachingLoaderMixin(ABC, _CachingLoaderProtocol):
         cache_key: str,
         globals: Mapping[str, object] | None,  # noqa: A002
         load_func: Callable[[], Awaitable[Template]],
+        context: RenderContext | None = None,
     ) -> Template:
         try:
             cached_template = self.cache[cache_key]
@@ -111,9 +120,16 @@ class CachingLoaderMixin(ABC, _CachingLoaderProtocol):
             self.cache[cache_key] = template
             return template
 
-        # Always rebind, as the non-caching loader would. Keeping the previous
-        # caller's globals when this caller has none leaks data between callers.
-        cached_template.global_data = env.make_globals(globals)
+        # Rebind, as the non-caching loader would. Keeping the previous caller's
+        # globals when this caller has none leaks data between callers.
+        #
+        # A template loaded from inside a render or a static analysis (`include`,
+        # `render`, `extends` pass the active render context) is rendered with
+        # that context and its own globals are never read. Leave the cached
+        # object alone in that case: rebinding would change the result of a
+        # later `render()` of a template someone else got from `get_template()`.
+        if context is None:
+            cached_template.global_data = env.make_globals(globals)
         return cached_template
 
     def load(
@@ -138,6 +154,7 @@ class CachingLoaderMixin(ABC, _CachingLoaderProtocol):
                 context=context,
                 **kwargs,
             ),
+            context,
         )
 
     async def load_async(
@@ -162,6 +179,7 @@ class CachingLoaderMixin(ABC, _CachingLoaderProtocol):
                 context=context,
                 **kwargs,
             ),
+            context,
         )
 
     def cache_key(
